@@ -56,6 +56,26 @@ double now_s()
 	return duration<double>(steady_clock::now().time_since_epoch()).count();
 }
 
+// CPU seconds (user + system) a process has consumed so far. Hang detection counts CPU time, not wall-clock time, so that
+// a machine busy with other work cannot turn a slow run into a "hang"; wall-clock time is only a far backstop.
+double proc_cpu_s(pid_t pid)
+{
+	char path[64];
+	std::snprintf(path, sizeof path, "/proc/%d/stat", int(pid));
+	FILE* f = std::fopen(path, "r");
+	if (!f) return 0;
+	char buf[1024];
+	size_t const n = std::fread(buf, 1, sizeof buf - 1, f);
+	std::fclose(f);
+	buf[n] = 0;
+	char const* p = std::strrchr(buf, ')');
+	if (!p) return 0;
+	unsigned long ut = 0, st = 0;
+	// after ") " come state(3) ... utime is field 14, stime field 15
+	if (std::sscanf(p + 2, "%*c %*d %*d %*d %*d %*d %*u %*u %*u %*u %*u %lu %lu", &ut, &st) != 2) return 0;
+	return double(ut + st) / double(sysconf(_SC_CLK_TCK));
+}
+
 std::string env_or(char const* k, std::string const& def)
 {
 	char const* v = std::getenv(k);
@@ -482,11 +502,14 @@ ChildResult run_in_child(Plan const& plan, std::string const& tag, int timeout_s
 	}
 	int status = 0;
 	double const t0 = now_s();
+	double next_cpu_check = t0 + 1.0;
 	for (;;)
 	{
 		pid_t w = waitpid(pid, &status, WNOHANG);
 		if (w == pid) break;
-		if (now_s() - t0 > timeout_s)
+		bool over = now_s() - t0 > 10.0 * timeout_s;
+		if (!over && now_s() > next_cpu_check) { next_cpu_check = now_s() + 1.0; over = proc_cpu_s(pid) > timeout_s; }
+		if (over)
 		{
 			kill(pid, SIGKILL);
 			waitpid(pid, &status, 0);
@@ -612,6 +635,8 @@ struct WorkerProc
 	std::string buf;
 	int64_t cur = -1;      // run begun and not finished
 	double cur_since = 0;
+	double cur_cpu0 = 0;   // CPU seconds of the worker when the current run began
+	double cpu_checked = 0;
 	int64_t next_start = 0;
 	std::string errfile, planfile;
 	bool done = false;
@@ -690,7 +715,7 @@ void handle_line(Batch& b, WorkerProc& w, std::string const& line, std::string c
 	char const* s = line.c_str() + 2;
 	char* end = nullptr;
 	long long const i = std::strtoll(s, &end, 10);
-	if (t == 'B') { w.cur = i; w.cur_since = now_s(); return; }
+	if (t == 'B') { w.cur = i; w.cur_since = now_s(); w.cur_cpu0 = proc_cpu_s(w.pid); w.cpu_checked = w.cur_since; return; }
 	if (t == 'H')
 	{
 		w.cur = -1;
@@ -841,7 +866,13 @@ void run_batch(Batch& b, std::string const& flav)
 				}
 			}
 			bool hang = false;
-			if (!eof && w.cur >= 0 && t - w.cur_since > b.hang_s)
+			bool over = false;
+			if (!eof && w.cur >= 0 && t - w.cur_since > b.hang_s && t - w.cpu_checked > 1.0)
+			{
+				w.cpu_checked = t;
+				over = proc_cpu_s(w.pid) - w.cur_cpu0 > b.hang_s || t - w.cur_since > 10.0 * b.hang_s;
+			}
+			if (over)
 			{
 				kill(w.pid, SIGKILL);
 				hang = true;
